@@ -36,4 +36,22 @@ theorem facts_pop_success_path :
 /-- `Len`. -/
 theorem facts_len : soloSrc .addThenStore (init [9] [[.len]]) 1 = Gen.C11.lenOps := by decide
 
+/-- `PopWait(d)`, the part before the ticker, as the model has it: `d < 0` → loop of
+(`Pop`, return if ok, `Gosched`); otherwise one `Pop` (return if ok), and `d == 0` →
+return false.  (Positive durations — everything from the ticker on — are not modelled.) -/
+theorem facts_popwait_shape :
+    Gen.C11.popWaitOps.takeWhile (· ≠ .ticker) =
+      [.cond "d < 0", .loop, .callPop, .ret, .gosched, .callPop, .ret, .cond "d == 0", .ret] := by
+  decide
+
+/-- The model's `PopWait(d<0)` alone on an empty list: the failing prefix of `Pop`
+(load head, load tail), `Gosched`, and again; `PopWait(0)` performs exactly `Pop`. -/
+theorem facts_popwait_model :
+    soloSrc .addThenStore (init [] [[.popWait true]]) 6 =
+      Gen.C11.popOps.take 2 ++ [.gosched] ++ Gen.C11.popOps.take 2 ++ [.gosched] ∧
+    soloSrc .addThenStore (init [9] [[.popWait false]]) 7 = Gen.C11.popOps ∧
+    soloSrc .addThenStore (init [9] [[.popWait true]]) 7 = Gen.C11.popOps ∧
+    (run .addThenStore (init [] [[.popWait false]]) [0, 0]).2.map (·.ret) = [none, some (.pop 0 false)] := by
+  decide
+
 end Golib.C11
